@@ -1,6 +1,6 @@
 CONSTANTS
   N = 2
-  MaxMem = 2
+  MaxMem = 1
   MaxReq = 2
   Family = "flat"
   FlagFamily = "stops"
